@@ -99,6 +99,8 @@ class Gen:
         r = self.r
         k = r.below(100)
         d = self.anydir()
+        if not self.mutating and k < 22:
+            k = 22 + r.below(22)           # read-only sessions: open / list instead of create
         if k < 14:      # create file
             nm = self.name()
             p = d + (nm,)
@@ -278,7 +280,7 @@ def gen_session(rng, conf, nops, mutating=True, file_io=True, mount="mount 1 0 l
 class Judged:
     def __init__(self, script, ops, jlines):
         self.script = script; self.ops = ops
-        self.tainted = None; self.dirty = {}; self.verdicts = {}; self.wf = {}; self.mismatch = []; self.info = {}; self.unparsed = []
+        self.regions = {}; self.target_file = {}; self.tainted = None; self.dirty = {}; self.verdicts = {}; self.wf = {}; self.mismatch = []; self.info = {}; self.unparsed = []
         for l in jlines:
             t = l.split(" ")
             if t[0] == "O": self.verdicts[int(t[1])] = (t[2], t[3] if len(t) > 3 else "")
@@ -288,6 +290,8 @@ class Judged:
             elif t[0] == "X": self.unparsed.append(l)
             elif t[0] == "D": self.dirty[int(t[1])] = int(t[2])
             elif t[0] == "T": self.tainted = int(t[1])
+            elif t[0] == "R": self.regions.setdefault(int(t[1]), []).append((t[2], t[3], int(t[4]), int(t[5]), int(t[6]), int(t[7])))
+            elif t[0] == "F": self.target_file[int(t[1])] = int(t[2])
 
 
 def run_judged(scripts, flags=("wf", "tree", "info"), variant="default", timeout=3600, shards=8):
